@@ -65,13 +65,17 @@ theorem finishBatch_tr_C3b (c : WCtx) (b : List WReq) (t : Option WReq) (ok : Bo
   rw [WCtx.finishBatch_eq]
   cases t with
   | none =>
-    simp only
-    rw [toRecv_tr_C3b]
-    simp
+    rw [nonFlush_tr_C3b _ _ rfl]
+    simp [rmIds]
   | some r =>
-    simp only
-    rw [nonFlush_tr_C3b _ r (ht r rfl)]
-    simp
+    cases r with
+    | write u d cb => exact absurd (ht _ rfl) (by simp [WReq.isWrite])
+    | removeChunks ids =>
+      rw [nonFlush_tr_C3b _ _ rfl]
+      simp
+    | appendFile n p =>
+      rw [nonFlush_tr_C3b _ _ rfl]
+      simp [rmIds]
 
 theorem finishBatch_unl_C3b (c : WCtx) (b : List WReq) (t : Option WReq) (ok : Bool) :
     UnlPostC3b (c.finishBatch b t ok).w := by
